@@ -201,6 +201,9 @@ impl Builder {
                 rt::thread_done();
             });
 
+            #[cfg(feature = "verif-hooks")]
+            crate::verif::iteration_done(&execution.path);
+
             execution.check_for_leaks();
 
             i += 1;
